@@ -74,7 +74,8 @@ def run(ctx, chk):
              'the documented handler class per region', floor=24)
     chk.rule('C10.2', 'D', 'for every RAM region the read handler and the write handler address the same cell', floor=6)
     chk.rule('C10.3', 'D', 'no two addresses share a storage cell: index injective within a region, index sets of '
-             'regions on the same buffer disjoint (single-address exceptions included)', floor=8)
+             'regions on the same buffer disjoint (single-address exceptions included); banked regions: consecutive banks '
+             'are further apart than the largest offset inside a bank', floor=20)
     chk.rule('C10.4', 'D', 'no store to the ROM buffer is reachable through the bus; ROM-range writes reach only the '
              'cartridge controller registers', floor=3)
     chk.rule('C10.5', 'D', 'instruction fetch view = data view in ROM, work RAM and high RAM', floor=5)
@@ -171,6 +172,36 @@ def run(ctx, chk):
                          % (name, lo, hi, m), mfile, None)
             else:
                 chk.ok('C10.3', key)
+    # banked regions: index = stride * bank + f(addr).  Two banks must not overlap: stride > max f(addr) on the region
+    from ..affine import aff
+    for name in RAM_REGIONS + ('ROMn',):
+        for p in by_region_r.get(name, []):
+            if p['kind'] != 'buffer':
+                continue
+            env = p['env']
+            co, c0, w = aff(p['index'], env)
+            bank_atoms = [(a, k) for a, k in co.items() if not mentions(a, bm.ADDR)]
+            addr_atoms = [(a, k) for a, k in co.items() if mentions(a, bm.ADDR)]
+            if not bank_atoms:
+                continue
+            key = 'stride:%s:%s' % (name, '/'.join(c.split('::')[-1] for c in p['cart']) or '-')
+            span = 0
+            okk = True
+            for a, k in addr_atoms:
+                if k != 1:
+                    okk = False
+                span += env.av(a).hi
+            if not okk or len(bank_atoms) != 1:
+                chk.fail('C10.3', key, '%s: banked index %s is not of the form stride * bank + f(addr)'
+                         % (name, fmt(p['index'])[:120]), mfile, None)
+                continue
+            stride = bank_atoms[0][1]
+            if stride > span:
+                chk.ok('C10.3', key, sample={'region': name, 'stride': hex(stride), 'largest in-bank offset': hex(span)})
+            else:
+                chk.fail('C10.3', key, '%s: consecutive banks are %#x cells apart but offsets inside a bank reach %#x: a byte '
+                         'written in one bank is visible at another address of the neighbouring bank (index %s)'
+                         % (name, stride, span, fmt(p['index'])[:120]), mfile, None)
     # disjoint index sets of different read paths on the same writable buffer
     bufpaths = {}
     for p in reads:
